@@ -145,7 +145,11 @@ def main():
                             'replaced_by_contract': u.get('replace', []), 'backend': 'cbmc 6.11 symex + cadical'}
         for o in rel:
             if o['status'] != 'SUCCESS':
-                failures.append((u, o))
+                if o['desc'].startswith('UNDECIDED:'):
+                    # the code left the region the ghost model can reason about (e.g. consulted an unregistered element): not a verdict
+                    infra.append('%s: %s' % (u['id'], o['desc']))
+                else:
+                    failures.append((u, o))
         fn_under_contract.append(u['target'])
         import random
         rnd = random.Random(seed + len(samples))
@@ -203,7 +207,7 @@ def main():
             print('  failed obligation: unit=%s %s [%s]' % (u['id'], o['label'] or o['desc'], o['name']))
             print('VIOLATION property=%s replay=%s%s' % (prop, path, tail))
         sys.exit(1)
-    if infra:
+    if infra and not new_failures:
         for m in infra:
             print('UNDECIDED: ' + m)
         sys.exit(2)
